@@ -228,6 +228,9 @@ def decode_fault(prot, body):
                 raise ValueError("not a msgpack-rpc error message: %r" % (d,))
             d = d[2]
     d = norm(d)
+    if isinstance(d, list) and len(d) == 4 and isinstance(d[0], str):
+        # complex_as=list: [faultcode, faultstring, faultactor, detail]
+        return d[0], d[1], (d[3] if d[3] != "" else None)
     if not isinstance(d, dict) or "faultcode" not in d:
         raise ValueError("not a fault document: %r" % (d,))
     return d["faultcode"], d.get("faultstring"), d.get("detail")
